@@ -25,6 +25,7 @@ import (
 	"github.com/olric-data/olric/internal/cluster/partitions"
 	"github.com/olric-data/olric/internal/discovery"
 	"github.com/olric-data/olric/internal/protocol"
+	"github.com/olric-data/olric/internal/verifhook"
 	"github.com/olric-data/olric/pkg/storage"
 	"github.com/vmihailenco/msgpack/v5"
 )
@@ -86,6 +87,9 @@ func (f *fragment) Move(part *partitions.Partition, name string, owners []discov
 	if err != nil {
 		return err
 	}
+	if err := verifhook.Fire("move.exported", f.service.rt.This().String(), part.ID()); err != nil {
+		return err
+	}
 	fp := &fragmentPack{
 		PartID:  part.ID(),
 		Kind:    part.Kind(),
@@ -121,6 +125,9 @@ func (f *fragment) Move(part *partitions.Partition, name string, owners []discov
 			return err
 		}
 		if err := cmd.Err(); err != nil {
+			return err
+		}
+		if err := verifhook.Fire("move.sent", f.service.rt.This().String(), part.ID()); err != nil {
 			return err
 		}
 	}
